@@ -18,6 +18,9 @@ class ForkError(Exception):
 
 
 def run_in_fork(fn, args=(), timeout=300.0):
+    # a pending dump_traceback_later watchdog thread does not survive fork, but its lock does: re-arming it in the
+    # child would then block for ever.  Cancel it here (where the thread still exists) before forking.
+    faulthandler.cancel_dump_traceback_later()
     r, w = os.pipe()
     sys.stdout.flush()
     sys.stderr.flush()
